@@ -13,7 +13,9 @@ pub(crate) fn remove_insignificant_whitespace(xot: &mut Xot, node: Node) {
 }
 
 fn is_whitespace(text: &str) -> bool {
-    text.chars().all(|c| c.is_whitespace())
+    // XML white space only (https://www.w3.org/TR/xml/#NT-S); other Unicode
+    // spaces such as U+00A0 are content
+    text.chars().all(|c| matches!(c, ' ' | '\t' | '\r' | '\n'))
 }
 
 fn is_significant_text_node(xot: &Xot, node: Node) -> bool {
